@@ -290,6 +290,11 @@ var reSyntaxErr = regexp.MustCompile(`syntax error at line=(-?\d+), column=(-?\d
 type errPos struct{ line, col int }
 
 func parseErrPositions(err error) []errPos {
+	// through the verif accessor when the build has it (robust against a reworded message), else from the
+	// stable "syntax error at line=L, column=C:" prefix
+	if ps, ok := syntaxPositionsHook(err); ok {
+		return ps
+	}
 	var out []errPos
 	for _, m := range reSyntaxErr.FindAllStringSubmatch(err.Error(), -1) {
 		l, _ := strconv.Atoi(m[1])
